@@ -60,6 +60,12 @@ def run_checks(d, props, slot=None):
                     if l2.strip().startswith('construct:'):
                         cons = l2.split(':', 1)[1].strip().split(' (')[0]
                 keys.append('%s | %s | %s' % (rule, cons.rsplit('::', 1)[-1], inst))
+        if r.returncode != 0 and not keys:
+            # non-zero exit without a VIOLATION line: not a verdict (interpreter / environment trouble in a parallel sweep) - keep the output, retry once
+            with open(os.path.join(os.environ.get('TMPDIR', '/tmp'), 'run_patch_oddities.log'), 'a') as f_:
+                f_.write('%s %s exit=%d\n%s\n' % (d, p, r.returncode, r.stdout[-1500:]))
+            r = subprocess.run([os.path.join(VERIF, 'check'), p, '--repo', d], stdout=subprocess.PIPE, stderr=subprocess.STDOUT, text=True, env=env)
+            keys = ['(second run) ' + l for l in r.stdout.splitlines() if l.startswith('VIOLATION')]
         res[p] = (r.returncode, keys)
     return res
 
